@@ -101,6 +101,19 @@ def iteration_sequence(X, it, node):
     """(snapshot list, item function index -> value) for a symbolic iterable."""
     v = deref(it)
     if isinstance(v, ListV):
+        if isinstance(it, Loc) and isinstance(v.E, (TDict, TSet, TList)):
+            # elements are containers: iterate over LOCATIONS so that x.pop(..) on the
+            # loop variable updates the element inside the list (CPython aliasing)
+            def item(i, it=it):
+                def get():
+                    return deref(it).at(i)
+
+                def set_(nv):
+                    cur = deref(it)
+                    lv = cur.E.to_leaves(nv)
+                    it.set(ListV(cur.E, cur.n, [z3.Store(a, i, l) for a, l in zip(cur.ats, lv)]))
+                return Loc(get, set_, v.E, '%s[%s]' % (it.desc, i))
+            return v, item
         return v, v.at
     if isinstance(v, SetV):
         s = prelude.set_enumeration(X, v)
@@ -251,7 +264,8 @@ def _invariant_loop(X, st, fr, ls, forinfo):
         # sequence is the list's CURRENT value (kept fixed inside one iteration by
         # the non-interference obligation)
         seq = deref(live)
-        item = seq.at
+        if not isinstance(seq.E, (TDict, TSet, TList)):
+            item = seq.at
         X.named_ghosts[ls.seq] = seq
     if is_for:
         idx = z3.Int(X.fresh_name('it'))
@@ -272,6 +286,7 @@ def _invariant_loop(X, st, fr, ls, forinfo):
 
     # ---- arbitrary iteration
     if is_for:
+        X.named_ghosts[ls.index] = ZV(idx)      # visible to the invariants of inner loops
         X.assume(idx < seq.n)
         X.assign(st.target, item(idx), fr)
     else:
@@ -289,7 +304,14 @@ def _invariant_loop(X, st, fr, ls, forinfo):
     except _Break:
         return          # leaves the loop with the state at the break
     # non-interference for live containers
-    if live is not None:
+    if live is not None and isinstance(deref(live), ListV) and \
+            isinstance(deref(live).E, (TDict, TSet, TList)):
+        # a list of containers: the elements may be updated in place, the list
+        # itself (its length) must not change
+        before = live_before_value(X, live, heap_mid)
+        X.oblige('%s:loop%d.non-interference' % (fname, k), deref(live).n == before.n,
+                 kind='loop-non-interference', role='prop')
+    elif live is not None:
         cur = deref(live)
         eqf = X.eq(cur, live_before_value(X, live, heap_mid))
         X.oblige('%s:loop%d.non-interference' % (fname, k), X._z(eqf),
